@@ -186,10 +186,10 @@ def run(ctx: Ctx) -> int:
     add = [c for c in calls_in(af) if call_leaf(c) == "add" and root_name(c.func) == "applied_links"]
     gla = [c for c in calls_in(af) if call_leaf(c) == "get_link_actions"]
     loops = [n for n in walk_local(af) if isinstance(n, ast.For) and any(contains(n, c) for c in stv)]
-    ctx.need(stv and add and gla and loops, "apply_instantiation_links: set_target_value / applied_links.add / get_link_actions")
+    ctx.need(stv and gla and loops, "apply_instantiation_links: set_target_value / get_link_actions")
     head = g.node_ids_of(loops[0])
-    ok = g.must_pass(g.cn(add), g.cn(stv), head + [g.exit], exclude_labels=NX, strict=True)
-    ctx.oblige("C16.d", ok, add[0], "every applied link is recorded in applied_links before the next iteration / return" if ok else "a link can be applied without being recorded (it would be applied twice)", fn=af)
+    ok = bool(add) and g.must_pass(g.cn(add), g.cn(stv), head + [g.exit], exclude_labels=NX, strict=True)
+    ctx.oblige("C16.d", ok, add[0] if add else stv[0], "every applied link is recorded in applied_links before the next iteration / return" if ok else "a link can be applied without being recorded (it would be applied twice)", fn=af)
     k = get_kwarg(gla[0], "skip")
     ok = k is not None and root_name(k) == "applied_links"
     ctx.oblige("C16.d", ok, gla[0], "already applied links are skipped" if ok else "get_link_actions no longer skips applied links", fn=af)
